@@ -216,14 +216,34 @@ fn more_family<S: Strat + arc_swap::strategy::Strategy<crate::api::V2> + arc_swa
         }
         if mode == Fresh {
             for tw in [false, true] {
-                out.push(inst(
+                let mut x = inst(
                     format!("panic_dtor{}:{}", if tw { "2" } else { "" }, path),
                     &["C18"],
                     mode,
                     if tw { 3 } else { 2 },
-                    "the destructor of the initial value panics wherever it runs: R{load, drop, load, drop} || W{store} (|| W2{store}), every call under catch_unwind",
+                    "the destructor of a chosen value (initial / first writer's) panics wherever it runs: R{load, drop, load, drop} || W{store} (|| W2{store} as one complete call placed anywhere), every call under catch_unwind",
                     move || h_more::panic_dtor::<S>(fill, tw),
-                ));
+                );
+                if tw {
+                    x.k = 1;
+                    x.p_with_k = Some(2);
+                    // the helping hand-over only exists on the fallback paths
+                    x.thorough_only = path == "fast";
+                }
+                out.push(x);
+            }
+            if path == "fast" {
+                let mut x = inst(
+                    "panic_dtor2h:full".to_string(),
+                    &["C18"],
+                    mode,
+                    3,
+                    "as panic_dtor2, but the reader's fast slots hold S guards of the container itself (unpaid debts on the replaced value while a writer's walk is abandoned by a panic)",
+                    move || h_more::panic_dtor_g::<S>(true, true, true),
+                );
+                x.k = 1;
+                x.p_with_k = Some(2);
+                out.push(x);
             }
             for at in 1..=3u64 {
                 out.push(inst(
@@ -236,6 +256,14 @@ fn more_family<S: Strat + arc_swap::strategy::Strategy<crate::api::V2> + arc_swa
                 ));
             }
         }
+        out.push(inst(
+            format!("serde_conc:{}:{}", path, m),
+            &["C20"],
+            mode,
+            2,
+            "T{serialize the container, twice} || W{store, store}",
+            move || h_more::serde_conc::<S>(fill),
+        ));
         out.push(inst(
             format!("cache_conc:{}:{}", path, m),
             &["C16"],
@@ -396,8 +424,24 @@ fn adversary_family<S: Strat>(out: &mut Vec<Inst>, fill: bool) {
     }
 }
 
+fn seq_engine_family(out: &mut Vec<Inst>) {
+    for (s, name) in [(0u8, "default"), (1, "nofast")] {
+        let mut x = inst(
+            format!("seq_spurious:{}", name),
+            &["C14", "C02"],
+            Fresh,
+            0,
+            "one thread, four sequential API programs checked against the reference model; spurious failures of weak compare-exchange enumerated",
+            move || h_more::seq_spurious(s),
+        );
+        x.expect_all_dead = false;
+        out.push(x);
+    }
+}
+
 pub fn all() -> Vec<Inst> {
     let mut v = Vec::new();
+    seq_engine_family(&mut v);
     adversary_family::<DefaultStrategy>(&mut v, false);
     adversary_family::<DefaultStrategy>(&mut v, true);
     adversary_family::<NoFast>(&mut v, false);
